@@ -145,6 +145,13 @@ pub fn random_tree<F: PrimeField>(rng: &mut rand_chacha::ChaChaRng, nvars: usize
                         t.push((var(rng), coef(rng)));
                     }
                 }
+                if rng.gen_bool(0.5) {
+                    // the same variable in adjacent positions with different coefficients
+                    let c1 = coef(rng);
+                    let c2 = coef(rng);
+                    t.push((v0, c1));
+                    t.push((v0, c2));
+                }
                 E::FromIter(t, rng.gen_bool(0.5))
             }
             _ => E::Const(coef(rng)),
